@@ -7,16 +7,23 @@ From Ropt Require Import Base.ListX Model.Step Model.Events Gen.Generated Check.
 Import ListNotations.
 Open Scope nat_scope.
 
+(* a log entry is printed by the harness as one integer: rcpt * 10000 + sid * 10 + event value for a
+   delivery, -1 for an evaluator call (unary nat literals are slow to parse) *)
 Inductive oentry := OD (rcpt sid : nat) (ev : Z) | OC.
+Definition decode (z : Z) : oentry :=
+  if (z <? 0)%Z then OC
+  else OD (Z.to_nat (z / 10000)) (Z.to_nat ((z / 10) mod 1000)) (z mod 10)%Z.
 
 Record robs := {
-  o_log : list oentry;
-  o_exits : list (nat * Z);      (* (step id, exit code value) per run_step call; -2 = PlanAborted raised *)
+  o_zlog : list Z;
+  o_exits : list (Z * Z);        (* (step id, exit code value) per run_step call; -2 = PlanAborted raised *)
   o_outer_ab : bool;             (* Plan.aborted of the outer plan at the end *)
   o_inner_ab : bool;             (* Plan.aborted of the nested plan *)
   o_probe : bool;                (* a further run_step raised PlanAborted *)
   o_escaped : bool               (* an exception escaped from a run_step call *)
 }.
+
+Definition o_log (o : robs) : list oentry := map decode (o_zlog o).
 
 Record case := {
   c_outer : list nat;            (* recording handlers of the outer plan *)
@@ -57,8 +64,8 @@ Fixpoint entries_eqb (a b : list entry) : bool :=
   end.
 
 Definition ret_z (r : ret) : Z := match r with RExit c => code_z c | RPlanAborted => (-2)%Z end.
-Definition exits_eqb (m : list (nat * ret)) (o : list (nat * Z)) : bool :=
-  forallb2 (fun a b => (fst a =? fst b) && Z.eqb (ret_z (snd a)) (snd b)) m o.
+Definition exits_eqb (m : list (nat * ret)) (o : list (Z * Z)) : bool :=
+  forallb2 (fun a b => Z.eqb (Z.of_nat (fst a)) (fst b) && Z.eqb (ret_z (snd a)) (snd b)) m o.
 
 Definition world_of (c : case) : world := {| plans := [c_outer c; c_inner c]; obsv := c_obs c |}.
 
@@ -83,7 +90,7 @@ Definition nodup_nat (l : list nat) : bool :=
 
 Definition check_case (c : case) : bool :=
   nodup_nat (c_outer c ++ c_inner c ++ c_obs c) &&
-  match compile_steps 0 (c_steps c) with
+  match compile_steps 0 (c_steps c) false with
   | Some ps =>
       match_run (world_of c) ps None (c_full c) &&
       match_run (world_of c) ps (c_k c) (c_run c) &&
